@@ -4,7 +4,7 @@ import arrayprop, directed
 
 def run(tier):
     return arrayprop.standard_run(
-        "C05", tier, profiles=["grammar", "damage", "grammar", "ranges", "grammar", "copy", "grammar", "mixed"], nquick=48, nthorough=360,
+        "C05", tier, profiles=["grammar", "damage", "filters", "ranges", "grammar", "copy", "filters", "mixed"], nquick=48, nthorough=360,
         directed_jobs=lambda s0: [(s0 + 1, dict(nd=2, np=2, copies=2), "directed-F1", 0, directed.f1_pasthash_overwritten),
                                   (s0 + 2, dict(nd=2, np=2, copies=2), "directed-F2", 0, directed.f2_pasthash_length)],
         scripts=[("F1s", "NoF1", "F1-chg-pasthash-is-new-hash"), ("F2", "NoF2", "F2-chg-pasthash-other-length")],
